@@ -110,7 +110,11 @@ Inductive case :=
            (obs : option robs)                   (* None: NewChunkDiskMapper failed *)
 | CTorn (id : Z) (dir : list (N * list N)) (expect : list (ref * cinfo * N)) (newest : N)
         (base : list (ref * cinfo))              (* what the undamaged directory iterates to (observed) *)
-        (cuts : list (N * option tobs)).         (* one recovery per truncation point of the newest file; the
+        (cuts : list (N * option tobs))
+| CPos (id : Z) (seq off : N) (cutf : bool)     (* a chunkPos at this position ... *)
+       (steps : list (bool * N))                 (* ... allocates for these (CutNewFile requested?, data length) *)
+       (obs : list (bool * ref))                 (* getNextChunkRef's cut decisions and refs *)
+       (fin : N * N * bool).                     (* the position afterwards *)         (* one recovery per truncation point of the newest file; the
                                                     observed chunk lists are written as "the first m of base"
                                                     when they are equal to that *)
 
@@ -125,9 +129,12 @@ Definition tb (c1 : clist) (st : istatus) (fs : list N) (c2 : clist) : tobs := (
 Definition ct (k : N) (o : option tobs) : N * option tobs := (k, o).
 Definition wc (x : int) (l : list int) : list int := x :: l.
 Definition wn : list int := nil.
+Definition ps (c : bool) (dl : N) : bool * N := (c, dl).
+Definition po (c : bool) (a b : N) : bool * ref := (c, (a, b)).
+Definition pf (q o : N) (c : bool) : N * N * bool := (q, o, c).
 
 Definition c_id (c : case) : Z :=
-  match c with CTrace i _ _ _ _ _ => i | CRestart i _ _ _ _ _ => i | CTorn i _ _ _ _ _ => i end.
+  match c with CTrace i _ _ _ _ _ => i | CRestart i _ _ _ _ _ => i | CTorn i _ _ _ _ _ => i | CPos i _ _ _ _ _ _ => i end.
 
 Definition truncate_newest (dir : list (N * list N)) (newest k : N) : list (N * list N) :=
   map (fun e => if fst e =? newest then (fst e, firstn (N.to_nat k) (snd e)) else e) dir.
@@ -165,6 +172,26 @@ Definition recov_eqb (m : option recovered) (o : option robs) : bool :=
   | _, _ => false
   end.
 
+Fixpoint pos_obs_eqb (a b : list (bool * ref)) : bool :=
+  match a, b with
+  | [], [] => true
+  | (c, r) :: t, (c', r') :: t' => Bool.eqb c c' && ref_eqb r r' && pos_obs_eqb t t'
+  | _, _ => false
+  end.
+
+(* the allocation property on the implementation's own refs: every chunk inside its file, each
+   starting where the previous one ended or at offset 8 of the next file, cut reported exactly then *)
+Fixpoint holds_pos (q o : N) (steps : list (bool * N)) (obs : list (bool * ref)) : bool :=
+  match steps, obs with
+  | [], [] => true
+  | (_, dl) :: t, (cut, rf) :: t' =>
+      let b := size_of_len dl in
+      (if cut then ref_eqb rf (q + 1, 8) else ref_eqb rf (q, o)) &&
+      (8 <=? snd rf) && (snd rf + b <=? max_file_size) &&
+      holds_pos (fst rf) (snd rf + b) t t'
+  | _, _ => false
+  end.
+
 Definition agree (c : case) : bool :=
   match c with
   | CTrace _ bufsize qmax init tr final =>
@@ -175,6 +202,10 @@ Definition agree (c : case) : bool :=
   | CRestart _ dir _ _ _ obs => recov_eqb (recover crc32c dir) obs
   | CTorn _ dir _ newest base cuts =>
       forallb (fun c => recov_eqb (recover crc32c (truncate_newest dir newest (fst c))) (expand_obs base (snd c))) cuts
+  | CPos _ seq off cutf steps obs fin =>
+      let (l, e) := alloc_run seq off cutf (map (fun st => (fst st, size_of_len (snd st))) steps) in
+      pos_obs_eqb (map (fun x => (fst (fst x), snd (fst x))) l) obs &&
+      (let '(q, o, c) := e in let '(q', o', c') := fin in (q =? q') && (o =? o') && Bool.eqb c c')
   end.
 
 (* ------------------------------------------------------------------ holds: the property on the implementation's outputs *)
@@ -248,6 +279,9 @@ Definition holds (c : case) : bool :=
   | CRestart _ dir expect newest cutk obs => holds_restart dir expect newest cutk obs
   | CTorn _ dir expect newest base cuts =>
       forallb (fun c => holds_restart dir expect newest (Some (fst c)) (expand_obs base (snd c))) cuts
+  | CPos _ seq off _ steps obs _ =>
+      if ((off =? 0) || (8 <=? off)) && forallb (fun st => 8 + size_of_len (snd st) <=? max_file_size) steps
+      then holds_pos seq off steps obs else true
   end.
 
 Definition mismatches (cs : list case) : list Z := map c_id (filter (fun c => negb (agree c)) cs).
